@@ -288,4 +288,4 @@ def obligations():
     from tx.p_c05 import share, temp_sequences
     from tx.p_c14 import rule_kinds
     return (statement_rows() + hbuff_prologue() + record_types() + device_functions_per_occurrence() + parser_builds_a_tree() + poke_addresses()
-            + share("temporaries/", temp_sequences()) + share("kind/", rule_kinds()))
+            + share("temporaries/", temp_sequences()) + share("kind/", rule_kinds()) + share("operand-values/", __import__("tx.p_c01", fromlist=["x"]).hex_values()))
